@@ -99,7 +99,12 @@ func cmdCheck(repo, verif string, args []string) int {
 			o := &Obligation{Name: r.Key + "#translate", Kind: "translate", Fn: r.Key, Status: "untranslatable", RawOut: r.Err, Desc: "function must stay inside the verifier's subset: " + r.Err, vc: r.VC, Pos: p.fset.Position(fn.Pos())}
 			cr.obligs = append(cr.obligs, o)
 		}
-		cr.obligs = append(cr.obligs, r.Obligs...)
+		for _, o := range r.Obligs {
+			if o.Scoped && !hasString(o.Props, prop) {
+				continue // functional clause scoped to other properties: assumed by callers, decided in those checks
+			}
+			cr.obligs = append(cr.obligs, o)
+		}
 	}
 	for _, l := range p.contracts.Lemmas {
 		for _, pr := range l.Props {
@@ -132,6 +137,8 @@ func cmdCheck(repo, verif string, args []string) int {
 			}
 		}
 	}
+	// finite-table obligations decided by evaluation
+	statics := staticObligations(p, prop)
 	// lemma proofs
 	cr.lemmaObs = lemmaObligations(p, verif)
 	outDir := filepath.Join(verif, "out", prop)
@@ -151,6 +158,15 @@ func cmdCheck(repo, verif string, args []string) int {
 	}
 	discharge(todo, SolveOpts{OutDir: outDir, TimeoutS: tmo, Workers: runtime.NumCPU(), Prelude: p.prelude.text, Race: tier == "thorough"})
 	runLemmas(cr.lemmaObs, p, outDir, tmo)
+	for _, o := range statics {
+		for i := range findings {
+			fd := &findings[i]
+			if fd.Property == prop && fd.Status == "known" && fd.Obligation == o.Name {
+				o.Finding = fd
+			}
+		}
+	}
+	cr.obligs = append(cr.obligs, statics...)
 
 	// verdicts
 	replayDir := filepath.Join(verif, "replays", prop)
@@ -420,3 +436,12 @@ func relFiles(fs []string, root string) []string {
 
 // notCovered: clauses of each property statement that no contract in reach decides (DESIGN.md section 5).
 var notCovered = map[string][]string{}
+
+func hasString(xs []string, x string) bool {
+	for _, y := range xs {
+		if y == x {
+			return true
+		}
+	}
+	return false
+}
